@@ -316,6 +316,16 @@ func runC05(c *Ctx) {
 		}
 	}
 
+	// payloads of several MiB (far inside the 128 MiB limit) with each of None / LZ4 / ZSTD: codec-internal limits (window,
+	// block size) must not be narrower than the documented one
+	if !c.Thorough {
+		for i := 0; i < 3; i++ {
+			mv := c05Methods[i]
+			payload, kind := genPayload(r, 1<<20+1<<19+r.Intn(4096))
+			c05Single(c, mv.name, mv.m, mv.level, payload, kind)
+		}
+	}
+
 	// --- 2. frame sequences x read schedules, with the model in lock-step
 	nseq := 150
 	if c.Thorough {
